@@ -44,8 +44,19 @@ pub fn now_text(r: Result<(libc::timespec, libc::timespec, ClockStatus), ShmErro
     }
 }
 
+/// panics of the code under test (inside `guarded`) are expected outcomes and stay silent; a panic of
+/// the harness itself is printed.
+pub static QUIET: std::sync::atomic::AtomicBool = std::sync::atomic::AtomicBool::new(false);
 pub fn quiet_panics() {
-    panic::set_hook(Box::new(|_| {}));
+    panic::set_hook(Box::new(|info| {
+        if !QUIET.load(std::sync::atomic::Ordering::SeqCst) { eprintln!("harness panic: {}", info); }
+    }));
+}
+pub fn guarded<R>(f: impl FnOnce() -> R + panic::UnwindSafe) -> Result<R, ()> {
+    QUIET.store(true, std::sync::atomic::Ordering::SeqCst);
+    let r = panic::catch_unwind(f);
+    QUIET.store(false, std::sync::atomic::Ordering::SeqCst);
+    r.map_err(|_| ())
 }
 
 pub fn parse_ints(toks: &[&str]) -> Vec<i64> {
